@@ -186,6 +186,10 @@ def ref_run(ops):
     files, handles, exp = {}, {}, []
     for op in ops:
         k = op[0]
+        if k == "remove":           # (no handle of the file is open in the fixed programs)
+            files[op[1]] = None
+            exp.append(("ok", None))
+            continue
         if k == "open":
             _, h, name, mode = op
             f = files.get(name)
@@ -230,7 +234,7 @@ def ref_run(ops):
         elif k == "hclose":
             del handles[op[1]]
             exp.append(("ok", None))
-    return exp, {n: bytes(f.data) for n, f in files.items()}
+    return exp, {n: (bytes(f.data) if f is not None else None) for n, f in files.items()}
 
 
 def scripted(bpc):
@@ -247,6 +251,12 @@ def scripted(bpc):
         # tell / seek(0, 1) between writes, seek to the position already held
         [["open", "h1", A, "w+"], ["write", "h1", "61" * bpc], ["seek", "h1", bpc, 0], ["write", "h1", "62" * 5], ["seek", "h1", 0, 1], ["tell", "h1"],
          ["seek", "h1", bpc + 5, 0], ["write", "h1", "63" * bpc], ["seek", "h1", bpc, 0], ["read", "h1", 7], ["hclose", "h1"]],
+        # fragmented free space: B between A and C is removed, A is extended in ONE write by more than the hole; C keeps its bytes
+        # (C02-m1: a "contiguous fast path" that checks only the first new cluster for adjacency)
+        [["open", "a", A, "w"], ["write", "a", "41" * bpc], ["hclose", "a"], ["open", "b", B, "w"], ["write", "b", "42" * bpc], ["hclose", "b"],
+         ["open", "c", "/F2.BIN", "w"], ["write", "c", "43" * bpc], ["hclose", "c"], ["remove", B], ["open", "a2", A, "a"],
+         ["write", "a2", "44" * (2 * bpc)], ["hclose", "a2"], ["open", "r", "/F2.BIN", "r"], ["read", "r", -1], ["hclose", "r"],
+         ["open", "r2", A, "r"], ["read", "r2", -1], ["hclose", "r2"]],
         # read up to the END of a file whose size is an exact multiple of the cluster size - in one piece, cluster by cluster, and by an
         # exact count - and write straight away, no seek in between (only tell); then the same through r+ after re-opening (C02-m6: read()
         # kept its own cursor and left it on (last cluster, offset 0) where seek() holds (last cluster, offset = cluster size))
@@ -264,7 +274,7 @@ def run(ctx):
     m = Model()
     built = {}
     try:
-        for i in range(ctx.scale(40, 600) + len(vols) * 3):
+        for i in range(ctx.scale(40, 600) + len(vols) * len(scripted(512))):
             if ctx.time_left() < 10:
                 break
             label, kw = vols[i % len(vols)]
